@@ -115,6 +115,45 @@ v('C03', 'membership-first-key-only', 'c03.key-equality', (P, '''				if (*group)
 v('C03', 'groups-from-map-order', 'c03.group-order', (P, '''	for _, key := range order {
 		item := grouped[key]''', '''	for key, item := range grouped {'''))
 # ---- C04
+v('C04', 'nested-right-bucket-under-left-key', 'c04.emit-sides', (J, """			for _, lr := range l.Rows[lk] {
+				for _, rr := range r.Rows[rk] {""", """			for _, lr := range l.Rows[lk] {
+				for _, rr := range r.Rows[lk] {"""))
+v('C04', 'nested-right-bucket-under-left-ident', 'c04.emit-sides', (J, 'if err := Copy(current, r.Rows[rk], j.rightIdent); err != nil {', 'if err := Copy(current, r.Rows[rk], j.leftIdent); err != nil {'))
+v('C04', 'nested-pad-under-left-ident', 'c04.emit-sides', (J, """			maps.Copy(mapper, (*lr).(Map))
+			mapper[j.rightIdent] = nil
+			slice = append(slice, mapper)
+		}
+	}
+	return b, slice, nil""", """			maps.Copy(mapper, (*lr).(Map))
+			mapper[j.leftIdent] = nil
+			slice = append(slice, mapper)
+		}
+	}
+	return b, slice, nil"""))
+v('C04', 'hash-left-keymap-twice', 'c04.emit-sides', (J, """			if _, ok := r.Keys[hash]; ok {
+				maps.Copy(current, *(r.Keys[hash]))""", """			if _, ok := r.Keys[hash]; ok {
+				maps.Copy(current, *(l.Keys[hash]))"""))
+v('C04', 'straight-join-right-catalog-idents-exchanged', 'c04.matcher-siblings', (J, """	r, err := ToCatalog(j.right, j.rightIdent, j.leftIdent, j.joinExpr)
+	if err != nil {
+		return nil, err
+	}
+	if !j.joinType.IsParallel() || !isParallelSafe(j.joinExpr) {
+		return j.JoinFunc(l, r)
+	}
+	return j.ParallelJoinFunc(l, r)
+}
+
+func (j *Join) Join() ([]any, error) {""", """	r, err := ToCatalog(j.right, j.leftIdent, j.rightIdent, j.joinExpr)
+	if err != nil {
+		return nil, err
+	}
+	if !j.joinType.IsParallel() || !isParallelSafe(j.joinExpr) {
+		return j.JoinFunc(l, r)
+	}
+	return j.ParallelJoinFunc(l, r)
+}
+
+func (j *Join) Join() ([]any, error) {"""))
 v('C04', 'outer-emits-every-pair', 'c04.emit-guard', (J, '''		if rsValue {
 			b = true''', '''		if rsValue || !j.joinType.IsInner() {
 			b = true'''))
@@ -800,3 +839,21 @@ v('C04', 'parallel hash join probes every other key', 'c04.every-key-probed', (J
 		}
 		wg.Add(1)
 		go func(lk string) {'''))
+
+# ---- round 11
+v('C03', 'setpath-looks-up-in-the-row', 'c03.path-walk', (P, 'if existing, ok := node[part].(Map); ok {', 'if existing, ok := row[part].(Map); ok {'))
+v('C12', 'setpath-looks-up-in-the-row', 'c03.path-walk', (P, 'if existing, ok := node[part].(Map); ok {', 'if existing, ok := row[part].(Map); ok {'))
+v('C18', 'if-tests-the-wrong-branch-value', 'go.nil-test-sibling', (F, """	if whenFalse == nil {
+		return nil, nil
+	}
+	return *whenFalse, nil""", """	if whenTrue == nil {
+		return nil, nil
+	}
+	return *whenFalse, nil"""))
+v('C16', 'slash-slash-enters-block-comment-state', 'c16.lexer-tokenizer', (Z, """			if nextRune == '/' {
+				l.pos += width
+				return oneLineCommentState""", """			if nextRune == '/' {
+				l.pos += width
+				return multilineCommentState"""))
+v('C20', 'dual-projects-the-source-rows', 'exec.dual-where', (P, 'rs, err := ExecSelect(query, from)', 'rs, err := ExecSelect(query, query.from)'))
+v('C02', 'dual-projects-the-source-rows', 'exec.dual-where', (P, 'rs, err := ExecSelect(query, from)', 'rs, err := ExecSelect(query, query.from)'))
